@@ -211,6 +211,12 @@ class SlicesSplit(RewriteRuleClassBase):
             return check_result.fail("Last dimension is not equal to End1.")
         if last_dim // 2 != b1[0]:
             return check_result.fail("Last dimension is not equal to Begin1.")
+        # Split(num_outputs=2) puts ceil(d/2) elements first and rejects an empty axis
+        if last_dim <= 0 or last_dim % 2 != 0:
+            return check_result.fail("Last dimension is not a positive even number.")
+        # The num_outputs attribute exists since Split-18
+        if context.graph_or_function.opset_imports.get("", 0) < 18:
+            return check_result.fail("Split with num_outputs needs opset 18.")
         return check_result
 
     def rewrite(self, op, x, begin0, end0, axes0, begin1, end1, axes1):
